@@ -4,7 +4,7 @@ from .. import simprop
 ID = "C13"
 FAMILY = "C13"
 VARIANTS = ("asan",)
-BUDGET = {"quick": dict(examples=16000, seconds=60), "thorough": dict(examples=400000, seconds=540)}
+BUDGET = {"quick": dict(examples=80000, seconds=55), "thorough": dict(examples=2000000, seconds=540)}
 NONTRIVIAL = {'cond-mixed-outcomes', 'cond-forwarded-signal', 'cond-cancel', 'cond-remove'}
 PROFILES = [(4, 'condition'), (1, 'mixed')]
 RULE = ("Hypothesis-generated scenarios (profile condition 80%, mixed 20%): 1-5 waiters with different predicates (counter >= a, resource free, pool available >= a, buffer level >= a, queue length >= a, constant) and priorities; explicit signals, state changes on observed resources / pools / buffers / queues without explicit signal (observers registered through cmb_resourceguard_register and through cmb_condition_subscribe), cancel and remove of named waiters, waiters leaving by timeout / interrupt / stop. Oracle: at every explicit signal, at every forwarded signal (seen by a tap registered as observer of the same guard) and after every release/put/get on an observed object, the harness evaluates all waiters' predicates itself: the satisfied ones must return SUCCESS within that instant (or leave for a ledgered reason), a waiter must not return SUCCESS in an instant in which its predicate was false at every signal, cancel makes exactly the named waiter return CANCELLED, remove takes it out silently. Non-trivial = a signal with both satisfied and unsatisfied waiters, or a forwarded signal, or a cancel/remove that hit. distinct = SHA-1 of the scenario text.")
